@@ -40,6 +40,12 @@ pub mod nd {
         static mut VECS: Option<Vec<Vec<u8>>> = None;
         static mut NEXT: usize = 0;
         pub static mut EXHAUSTED: bool = false;
+        /// Non-zero: no replay vectors, pseudo-random choices instead (native smoke runs).
+        pub static mut RANDOM: u64 = 0;
+
+        pub fn install_random(seed: u64) {
+            unsafe { RANDOM = seed.wrapping_mul(0x9E37_79B9_7F4A_7C15) | 1 };
+        }
 
         /// Install the replay vectors (one per `any_*` call, little endian).
         pub fn install(v: Vec<Vec<u8>>) {
@@ -51,6 +57,18 @@ pub mod nd {
         }
         fn next(n: usize) -> u64 {
             unsafe {
+                if RANDOM != 0 {
+                    RANDOM ^= RANDOM << 13;
+                    RANDOM ^= RANDOM >> 7;
+                    RANDOM ^= RANDOM << 17;
+                    let r = RANDOM >> 11;
+                    // small values and extreme values are both interesting
+                    return match r % 4 {
+                        0 => (r >> 8) % 16,
+                        1 => u64::MAX - ((r >> 8) % 16),
+                        _ => r >> 2,
+                    };
+                }
                 let vecs = VECS.as_ref().expect("no replay vectors installed");
                 if NEXT >= vecs.len() {
                     EXHAUSTED = true;
@@ -85,6 +103,10 @@ pub mod nd {
     /// A value in `0..n`.
     pub fn below(n: u8) -> u8 {
         let v = any_u8();
+        #[cfg(not(kani))]
+        if unsafe { RANDOM } != 0 {
+            return v % n;
+        }
         assume(v < n);
         v
     }
@@ -109,6 +131,7 @@ macro_rules! vcover {
 pub(crate) use vcover;
 
 pub mod model;
+pub mod api;
 pub mod refcnt;
 #[cfg(not(kani))]
 pub mod replay;
